@@ -57,6 +57,25 @@ structure DocEntry where
 def CheckInfo.docEntry (c : CheckInfo) : DocEntry :=
   { code := c.pfx ++ toString c.code, name := c.name, categories := c.categories, bodyHash := c.docHash }
 
+/-! ### docs/gen_checks.py: one section per check, keyed by the printed code, written in key order -/
+
+/-- the text `str(ErrorCode)` prints: prefix directly followed by the id -/
+def CheckInfo.codeStr (c : CheckInfo) : String := c.pfx ++ toString c.code
+
+/-- `docs[k] = v` on an insertion-ordered dict: an existing key keeps its place and takes the new value -/
+def dictSet {α : Type} (d : List (String × α)) (k : String) (v : α) : List (String × α) :=
+  match d with
+  | [] => [(k, v)]
+  | (k', v') :: r => if k' = k then (k, v) :: r else (k', v') :: dictSet r k v
+
+/-- the `docs` dict after the loop over `get_modules([])` -/
+def docsDict (cat : List CheckInfo) : List (String × DocEntry) :=
+  cat.foldl (fun d c => dictSet d c.codeStr c.docEntry) []
+
+/-- `for _, v in sorted(docs.items())`: the sections of checks.md in the order they are written -/
+def genDocs (cat : List CheckInfo) : List DocEntry :=
+  ((docsDict cat).mergeSort (fun a b => decide (a.1 ≤ b.1))).map (·.2)
+
 /-- One documented example block and what the check's own run said about it. -/
 structure Example where
   code : Nat
